@@ -624,6 +624,53 @@ def cache_2_3(ctx, rep, roles):
             ok = bool(samples) and all(not (cfg.reachable(start=r, labels_blocked=('exc',)) & set(samples)) for r in reads)
             rep.ob('CACHE-3', GRAMMAR, gp.qual, 'mtime sampled before file_io.read()', ok,
                    'the modification time handed to the cache is sampled after the content was read')
+            # ... and on *every* way to a save of a file that has a path: an entry created with the None default is dated
+            # time.time(), i.e. "seen now" - a file restored with an older mtime is never noticed (seed rt13-C16)
+            from ..paths import FactFlow
+            import re as _re
+            flow = FactFlow(cfg)
+            saves = [n for n in cfg.nodes if calls_in(n, lambda c: norm(c.func).split('.')[-1] == ts.name)]
+
+            def no_file_branch(node, lab):
+                if node.kind != 'test':
+                    return False
+                t = norm(node.ast)
+                if _re.fullmatch(r'(\w+\.)?path is not None', t):
+                    return lab == 'F'
+                if _re.fullmatch(r'(\w+\.)?path is None', t):
+                    return lab == 'T'
+                return False
+            for sv in saves:
+                seen, todo, prev = set(), [(cfg.entry, frozenset())], {}
+                prev[(cfg.entry, frozenset())] = None
+                hit = None
+                while todo:
+                    state = todo.pop(0)
+                    if state in seen:
+                        continue
+                    seen.add(state)
+                    node, facts = state
+                    if node is sv:
+                        hit = state
+                        break
+                    if node in samples:
+                        continue
+                    for nx, lab, f2 in flow.successors(node, facts, False):
+                        if no_file_branch(node, lab):
+                            continue
+                        k = (nx, f2)
+                        if k not in seen and k not in prev:
+                            prev[k] = state
+                            todo.append(k)
+                path = []
+                while hit is not None:
+                    path.append(hit[0])
+                    hit = prev[hit]
+                path.reverse()
+                from ..paths import path_text as _pt
+                rep.ob('CACHE-3', GRAMMAR, gp.qual, 'every way to `%s` of a file with a path samples its mtime' % head(sv.stmt), not path,
+                       'a module read from a path can be saved with the default time (time.time() instead of the modification '
+                       'time of the file): %s' % ' -> '.join(_pt(path)), witness=_pt(path) if path else None)
         else:
             rep.ob('CACHE-3', CACHE, ts.qual, 'entry change_time sampled inside try_to_save_module (after read and parse)', False,
                    'the modification time stored with the entry is sampled after the file was read and parsed: a write '
